@@ -2,9 +2,10 @@
 # tools/seed.sh <check> <patch.diff> [tier]  : apply a seeded change to a scratch copy of /repo (outside /repo and /verif) and run a check on it
 set -u
 CHK=$1; PATCH=$2; TIER=${3:-quick}
+[ -d "$PATCH" ] && { if [ -f "$PATCH/patch_rebased.diff" ]; then PATCH="$PATCH/patch_rebased.diff"; else PATCH="$PATCH/patch.diff"; fi; }
 S=/var/tmp/rsx_$$
 rm -rf $S; mkdir -p $S; cp -r /repo/src $S/src
-( cd $S && patch -p1 -s < "$PATCH" ) || { echo "patch failed"; rm -rf $S; exit 3; }
+( cd $S && patch -p1 -s --no-backup-if-mismatch < "$PATCH" ) || { echo "patch failed"; rm -rf $S; exit 3; }
 cd /verif
 REPO=$S timeout 3000 ./check $CHK --tier $TIER > /tmp/seed_out_$CHK.txt 2>&1
 rc=$?
